@@ -224,6 +224,38 @@ CHECKS["C04"] = dict(
          "table columns looked up by label) are re-observed with their own signatures; five were fixed in /repo.",
 )
 
+CHECKS["C03"] = dict(
+    engine="spec/writethrough", category="model_checking",
+    technique="TLA+ spec WriteThrough.tla (TLC: complete state graph of K attribute slots x 3 value tokens, all action orders to "
+              "depth 4, five named deviations as negative controls) + reflective spec-to-code replay: every transition on every "
+              "window of K assignable attributes of every concrete object/group/data/type class, property group and project "
+              "header, on an entity that was created, closed and re-opened; implementation tracked through the as-built graph",
+    text="TLC checks WriteThrough (open => live = stored), ReaderSeesLastAssigned, the frame condition and refusal/re-open action "
+         "properties on the Ideal model and that each deviation violates them. The harness discovers ~990 (class, attribute) pairs "
+         "by reflection, builds 3 valid values per attribute, and replays the exported transition cover and all orders of up to 4 "
+         "actions on stored entities; after every action the live getters, a fresh Workspace on a flushed copy (or the closed file) "
+         "and the raw HDF5 attribute/dataset are matched against the successors TLC printed.",
+    design_ref="DESIGN.md section 7 (C03), 11.3; notes/C03.md",
+    note="Small scope: K = 2 (quick) / 3 (thorough) attributes of one entity, 3 values each, one small fixture per class; pairs not "
+         "exercised are listed with a reason in the evidence; concatenated storage is C04. spec/writethrough/exercised_pairs.json "
+         "is the vacuity baseline (a pair that can no longer be exercised is exit 2). Trusted: TLC, h5py, the value domain table.",
+)
+CHECKS["C20"] = dict(
+    engine="spec/survey", category="model_checking",
+    technique="TLA+ state machine LinkedSurveys.tla (LinkFrom / Edit / Copy / Reopen over two partner entities, their live and "
+              "stored metadata, partner pointers and all copies) model-checked by TLC per linked class pair (10 configurations of 9 "
+              "class families) with 14 invariants/action properties; the exported state graph is replayed edge-complete on real "
+              "survey objects in .geoh5 files, comparing live metadata, raw h5py metadata, partner getters, geometry and loop "
+              "references of every entity after every action",
+    text="Exhaustive over all histories within the cfg bounds (quick: <= 4 actions, <= 2 copies, <= 2 edits, 1 re-open; thorough adds "
+         "all 15 setters on every pair with rejected values, boolean masks, two masks, cross-workspace extent copies, DC/MT depth 5); "
+         "every exported transition replayed against the implementation.",
+    design_ref="DESIGN.md section 6 (C20), 11.3; notes/C20.md",
+    note="Bounded: 4 stations / 2 loops, 2 values per setter, one setter group per history; property groups in the EM metadata, "
+         "re-linking to another partner and ill-formed surveys (no id data) are outside the model; value-map labels of copied id data "
+         "are not compared.",
+)
+
 NOT_YET = "check not built yet in this round (planned: see DESIGN.md section 7)"
 
 
